@@ -99,15 +99,15 @@ class Haplotag(BCheck):
                 "supplementary) mapped alignment is tagged (HP, PS, PC) = (unique best-agreeing haplotype, its phase set, best minus second-best summed allele quality) "
                 "and untagged on ties or without phased heterozygous variants; secondary/unmapped alignments are never tagged")
     rule = ("seeded SNV scenarios (1-2 samples/read groups, ploidy 2-4, 1-2 contigs + one contig with only placed-unmapped records, several phase sets with random "
-            "haplotype order, secondary/supplementary/duplicate/unmapped records), --no-reference, options --tag-supplementary, --ignore-read-groups (single sample), "
-            "whole-contig --regions, two regions on one contig (known finding F9), and linked-read barcodes shared with variant-free reads beyond the distance cutoff on either side; non-trivial = some read is tagged")
+            "haplotype order, secondary/supplementary/duplicate/unmapped records; a third of the inputs already carry HP/PS/PC tags from an earlier run on alignments of every kind; half of the inputs list their contigs in non-lexicographic header order), --no-reference, options --tag-supplementary, --ignore-read-groups (single sample), "
+            "whole-contig --regions, two regions on one contig (known finding F9), and linked-read barcodes shared with variant-free reads, and between variant-covering reads, beyond the distance cutoff on either side; non-trivial = some read is tagged")
     budget_s = {"quick": 150, "thorough": 1500}
     chunk = 4
 
     def inputs(self, tier, rng):
         for i in range(2000 if tier == "quick" else 30000):
             yield dict(seed=rng.getrandbits(48), ploidy=[2, 2, 3, 4][i % 4], tag_supp=(i % 3 == 0), regions=["none", "none", "whole", "two"][i % 4] if i % 5 == 0 else "none",
-                       ignore_rg=(i % 7 == 0), bx=(i % 4 == 1))
+                       ignore_rg=(i % 7 == 0), bx=(i % 4 == 1), stale=(i % 3 == 2), rename=(i % 2 == 1))
 
     def check(self, inp):
         from whatshap.cli.haplotag import run_haplotag
@@ -120,7 +120,21 @@ class Haplotag(BCheck):
         sc["contigs"].append(dict(name="chrU", seq=BAM.rand_seq(r, 120), variants=[]))
         for s in sc["samples"]:
             sc["truth"][s]["chrU"] = [[] for _ in range(ploidy)]
+        if inp.get("rename"):
+            # contigs in a header order that is not the lexicographic one (chrZ, [chr2,] chrU): output follows the INPUT order
+            old = sc["contigs"][0]["name"]
+            sc["contigs"][0]["name"] = "chrZ"
+            for rd in sc["reads"]:
+                if rd["contig"] == old:
+                    rd["contig"] = "chrZ"
+            for s in sc["samples"]:
+                sc["truth"][s]["chrZ"] = sc["truth"][s].pop(old)
         extra = extra_records(r, sc)
+        if inp.get("stale"):
+            # the input was haplotagged before: alignments of every kind carry HP/PS/PC from that earlier run
+            for rd in sc["reads"] + extra:
+                if r.random() < 0.6:
+                    rd["tags"] = list(rd.get("tags", [])) + [("HP", r.randint(1, 2)), ("PS", 999), ("PC", r.randint(1, 90))]
         extra.append(dict(name="only_unmapped_on_chrU", sample=sc["samples"][0], contig="chrU", start=10, cigar=[], seq=BAM.rand_seq(r, 25), flag=4, mapq=0))
         vcf_text, phasing = BAM.phased_vcf(sc, r)
         cutoff = 50000
@@ -151,6 +165,21 @@ class Haplotag(BCheck):
                     rd["tags"] = list(rd.get("tags", [])) + [("BX", bx)]
                     extra.append(dict(name="bxfar_%d" % k, sample=rd["sample"], contig=c["name"], start=start, cigar=[["M", 8]], seq=c["seq"][start:start + 8], flag=0, mapq=60,
                                       tags=[("BX", bx)]))
+                # ... and pairs of ordinary (variant-covering) reads that share a barcode but start more than the cutoff apart, in either order: two read
+                # clouds, each read is assigned on its own evidence
+                plain = [x for x in sc["reads"] if x["contig"] == c["name"] and x["flag"] == 0 and not any(t[0] == "BX" for t in x.get("tags", []))]
+                r.shuffle(plain)
+                while len(plain) >= 2 and k < 12:
+                    a_ = plain.pop()
+                    partner = [x for x in plain if x["sample"] == a_["sample"] and abs(x["start"] - a_["start"]) > cutoff + 1]
+                    if not partner:
+                        continue
+                    b_ = partner[0]
+                    plain.remove(b_)
+                    bx = "BXP%d" % k
+                    k += 1
+                    for x in (a_, b_):
+                        x["tags"] = list(x.get("tags", [])) + [("BX", bx)]
         d = tempfile.mkdtemp(prefix="c10_")
         try:
             paths = BAM.materialize(sc, d, extra_reads=extra)
